@@ -6,7 +6,7 @@
 From Coq Require Import NArith List Bool.
 From GV Require Import Base.Result Gen.TokenTypes Gen.Tokens Model.Lexer Spec.LexSpec
   Proofs.C13.LexRun Proofs.C13.LexPosRun Proofs.C13.LexOp Proofs.C13.LexBlankSpec Proofs.C13.LexFull
-  Proofs.C13.LexMaximal.
+  Proofs.C13.LexMaximal Proofs.C13.LexMaxNum.
 Import ListNotations.
 Local Open Scope N_scope.
 
@@ -266,3 +266,42 @@ Example C13_ex_annotation_maximal : forall un ua,
   lex un ua [64; 97; 64; 98] = Ok [mkTok [64; 97] TT_Annotation 0 0; mkTok [64; 98] TT_Annotation 0 2] /\
   lex un ua [64; 64; 120] = Ok [mkTok [64; 64; 120] TT_LineAnnotation 0 0].
 Proof. intros. repeat split; vm_compute; reflexivity. Qed.
+
+(* A Number token (the lexer has no separate float token type) is either digits-like -- a
+   numeric character followed by number characters (numeric, alphanumeric or '_':
+   the Number state's `c.is_numeric() || c == '_' || c.is_alphanumeric()`) -- or float-like:
+   number characters around exactly one period, starting with a numeric character or with the
+   period and a numeric character.  It cannot be extended: the next input character, if any, is
+   not a number character, and after a float-like token that ends with its period (`7.`) it
+   is not a second period (`1..2` is split into Number `1`, Range `..`, Number `2`). *)
+Theorem C13_number_maximal : forall un ua s ts,
+  lex un ua s = Ok ts ->
+  forall pre t post, ts = pre ++ t :: post -> tok_type t = TT_Number ->
+    let txt := tok_text t in
+    let next_not_number_char :=
+      match concat (map tok_text post) with c :: _ => is_number_char un ua c = false | [] => True end in
+    (forallb (is_number_char un ua) txt = true /\
+     match txt with c :: _ => is_numeric un c = true | [] => False end /\
+     next_not_number_char) \/
+    ((exists nb fr, txt = nb ++ 46 :: fr /\
+        forallb (is_number_char un ua) nb = true /\ forallb (is_number_char un ua) fr = true /\
+        match nb with
+        | c :: _ => is_numeric un c = true
+        | [] => match fr with c :: _ => is_numeric un c = true | [] => False end
+        end) /\
+     next_not_number_char /\
+     (ends_with 46 txt = true ->
+      match concat (map tok_text post) with c :: _ => c <> 46 | [] => True end)).
+Proof. exact lex_number_maximal. Qed.
+Print Assumptions C13_number_maximal.
+
+(* `1_0x.5+.5 7. 1..2` *)
+Example C13_ex_number_maximal : forall un ua,
+  match lex un ua [49; 95; 48; 120; 46; 53; 43; 46; 53; 32; 55; 46; 32; 49; 46; 46; 50] with
+  | Ok ts => map (fun t => (tok_text t, tok_type t)) ts =
+             [([49; 95; 48; 120; 46; 53], TT_Number); ([43], TT_PlusSign); ([46; 53], TT_Number);
+              ([32], TT_Whitespace); ([55; 46], TT_Number); ([32], TT_Whitespace);
+              ([49], TT_Number); ([46; 46], TT_Range); ([50], TT_Number)]
+  | _ => False
+  end.
+Proof. intros. vm_compute. reflexivity. Qed.
